@@ -18,6 +18,7 @@ from ..prng import sub
 from .c01 import draw_fmt, fmt_tag
 
 ID = "C14"
+PROBES = ['probe_sites_alternate', 'probe_reevaluated_argument', 'sites_judged']  # reach probes: counters that must be non-zero in a run (a zero is printed and recorded)
 LEVEL = "exploration"
 BUDGET = {"quick": 1200, "thorough": 50000}
 WALL = {"quick": 240, "thorough": 3000}
